@@ -133,6 +133,22 @@ def run(prog, R):
             if not here and not rv.startswith("Option::None"):
                 badp.append(("no-skip-test", rv[:60]))
         R.ob("C18.2-lock-step", "pre-pass yields no entry exactly for stdgates.inc (and for non-include / unreadable path literal)", not badp and any(h for h, _ in prow), pre.at, f"{len(prow)} paths; {badp[:2]}")
+        # both sides walk the same statement sequence: the top-level statements of the file, in order, once
+        pif = prog.body(SF + "parse_included_files")
+        if pif:
+            chain = None
+            for p_ in SymExec(prog, pif).paths():
+                for nm, a_, bb_ in p_.calls:
+                    if nm.endswith("Iterator::collect") and a_:
+                        chain = deep_strip(a_[0])
+            names = []
+            t_ = chain
+            while isinstance(t_, tuple) and t_[0] in ("call", "pure"):
+                names.append(t_[1].split("::")[-1] if not t_[1].startswith("oq3_") else t_[1].split("::", 1)[1])
+                t_ = deep_strip(t_[2][0]) if t_[2] else None
+            want_chain = ["filter_map", "SourceFile::statements", "ParseOrErrors::tree"]
+            R.ob("C18.2-lock-step", "pre-pass walks the top-level statements once, in order", names == want_chain, pif.at,
+                 f"iterator chain feeding the list of included files: {names} (expected {want_chain}: a different traversal, e.g. all descendants, yields entries for includes that the analyser does not consume at that position)")
         a1 = [(pre.callee_of(t) or "").split("::")[-1] for _, t in pre.calls()]
         a2 = [(ana.callee_of(t) or "").split("::")[-1] for _, t in ana.calls()]
         R.ob("C18.2-lock-step", "both sides read the path via Include::file().to_string()", all(x in a1 for x in ("file", "to_string")) and all(x in a2 for x in ("file", "to_string")), ana.at, "")
